@@ -43,7 +43,7 @@ impl Compiler {
                     args.len() as u8,
                     &qualified_name,
                     span,
-                );
+                )?;
                 self.release_arg_registers(arg_start, args.len());
                 return Ok(true);
             }
